@@ -14,7 +14,9 @@ from engine import Prop
 from shimgen import *
 
 P = Prop('C08', 'projection builders map the view volume onto the configured clip volume')
-INC = ['<glm/glm.hpp>', '<glm/ext/matrix_clip_space.hpp>', '<glm/ext/matrix_projection.hpp>']
+# <glm/ext/matrix_transform.hpp> must come before matrix_projection.hpp: pickMatrix calls translate/scale, which that header does
+# not include itself (see report: header not self-contained)
+INC = ['<glm/glm.hpp>', '<glm/ext/matrix_transform.hpp>', '<glm/ext/matrix_clip_space.hpp>', '<glm/ext/matrix_projection.hpp>']
 d = P.driver('c08', INC)                 # suffixed builders, project/unProject/pickMatrix, compositions (default configuration)
 CFG_DEFINES = {'RH_NO': [], 'RH_ZO': ['GLM_FORCE_DEPTH_ZERO_TO_ONE'], 'LH_NO': ['GLM_FORCE_LEFT_HANDED'],
                'LH_ZO': ['GLM_FORCE_LEFT_HANDED', 'GLM_FORCE_DEPTH_ZERO_TO_ONE']}
@@ -85,19 +87,20 @@ for tag in ('f32', 'f64'):
       ensures=corner_clauses(('l', 'r'), ('b', 't'), ('1', '-1'), -1) + [('clip_w_is_one', last_row([0, 0, 0, 1]))])
 
     # ------------------------------------------------------------------ ortho / frustum (glOrtho, glFrustum)
+    OREQ = [('left_ne_right', 'l != r'), ('bottom_ne_top', 'b != t'), ('near_ne_far', 'zn != zf')]                       # glOrtho
+    FRREQ = OREQ[:2] + [('near_positive', 'zn > 0'), ('far_positive', 'zf > 0'), ('near_ne_far', 'zn != zf')]          # glFrustum
     for H, Z in VARIANTS:
         s, zn0 = SGN[H], ZN0[Z]
         fn = 'glm_ortho%s_%s_%s' % (H, Z, tag)
         d.shim(fn, 'void', ins('l', 'r', 'b', 't', 'zn', 'zf'), 'auto m = glm::ortho%s_%s(l, r, b, t, zn, zf); %s' % (H, Z, ST), outs=O16)
         R(fn, 'glm::ortho%s_%s  %s' % (H, Z, CS),
-          requires=[('left_ne_right', 'l != r'), ('bottom_ne_top', 'b != t'), ('near_ne_far', 'zn != zf')],
+          requires=OREQ,
           ensures=corner_clauses(('l', 'r'), ('b', 't'), ('%d*zn' % s, '%d*zf' % s), zn0) + [('clip_w_is_one', last_row([0, 0, 0, 1]))])
 
         fn = 'glm_frustum%s_%s_%s' % (H, Z, tag)
         d.shim(fn, 'void', ins('l', 'r', 'b', 't', 'zn', 'zf'), 'auto m = glm::frustum%s_%s(l, r, b, t, zn, zf); %s' % (H, Z, ST), outs=O16)
         R(fn, 'glm::frustum%s_%s  %s' % (H, Z, CS),
-          requires=[('left_ne_right', 'l != r'), ('bottom_ne_top', 'b != t'), ('near_positive', 'zn > 0'), ('far_positive', 'zf > 0'),
-                    ('near_ne_far', 'zn != zf')],
+          requires=FRREQ,
           ensures=corner_clauses(('l', 'r'), ('b', 't'), ('%d*zn' % s, '%d*zf' % s), zn0, far_scale='zf/zn') +
           [('clip_w_is_view_depth', last_row([0, 0, s, 0]))])
 
@@ -172,12 +175,101 @@ for tag in ('f32', 'f64'):
       infinity_clauses(('-%s*aspect' % TAN, '%s*aspect' % TAN), ('-' + TAN, TAN), -1, limit='(1 - %s)' % EPS) +
       [('clip_w_is_view_depth', last_row([0, 0, -1, 0]))])
 
+    # ------------------------------------------------------------------ project / unProject / pickMatrix
+    # gluProject: clip = proj * model * (obj,1); ndc = clip.xyz / clip.w; win.xy = viewport.xy + viewport.zw * (ndc.xy + 1)/2;
+    # depth = (ndc.z + 1)/2 for the -1..1 clip volume (NO), ndc.z for the 0..1 clip volume (ZO)
+    def names(lst):
+        return ', '.join(n for _, n in lst)
+    OBJ, WIN, MOD, PRJ, VP = vec_ins(3, tag, 'o'), vec_ins(3, tag, 'w'), mat_ins(4, 4, tag, 'm'), mat_ins(4, 4, tag, 'p'), vec_ins(4, tag, 'v')
+    O3 = [(T, 'out', 3)]
+    V3 = lambda nm: 'glm::vec<3, %s, glm::defaultp>(%s0, %s1, %s2)' % (T, nm, nm, nm)
+    GEN = {  # generality level -> (shim inputs, model C++ expr, proj C++ expr, model spec, proj spec)
+        'general': (MOD + PRJ, mat_make(4, 4, tag, 'm'), mat_make(4, 4, tag, 'p'), 'mat([%s], 4, 4)' % names(MOD), 'mat([%s], 4, 4)' % names(PRJ)),
+        'proj_only': (PRJ, '%s(%s(1))' % (mat_t(4, 4, tag), T), mat_make(4, 4, tag, 'p'), 'ident(4)', 'mat([%s], 4, 4)' % names(PRJ)),
+        'model_only': (MOD, mat_make(4, 4, tag, 'm'), '%s(%s(1))' % (mat_t(4, 4, tag), T), 'mat([%s], 4, 4)' % names(MOD), 'ident(4)'),
+        'diagonal': ([(T, 'a%d' % i) for i in range(4)] + [(T, 'e%d' % i) for i in range(4)],
+                     '%s(%s)' % (mat_t(4, 4, tag), ', '.join('a%d' % c if c == r else '%s(0)' % T for c in range(4) for r in range(4))),
+                     '%s(%s)' % (mat_t(4, 4, tag), ', '.join('e%d' % c if c == r else '%s(0)' % T for c in range(4) for r in range(4))),
+                     'diag([a0, a1, a2, a3])', 'diag([e0, e1, e2, e3])'),
+        'identity': ([], '%s(%s(1))' % (mat_t(4, 4, tag), T), '%s(%s(1))' % (mat_t(4, 4, tag), T), 'ident(4)', 'ident(4)'),
+        # proj with the zero pattern of every frustum/perspective/infinitePerspective result, resp. of every ortho result
+        'frustum_shaped_proj': (ins('pa', 'pb', 'pc', 'pd', 'pe', 'pg', 'ph'), '%s(%s(1))' % (mat_t(4, 4, tag), T),
+                                '%s(pa, Z, Z, Z,  Z, pb, Z, Z,  pc, pd, pe, pg,  Z, Z, ph, Z)'.replace('Z', '%s(0)' % T) % mat_t(4, 4, tag),
+                                'ident(4)', '[[pa, 0, 0, 0], [0, pb, 0, 0], [pc, pd, pe, pg], [0, 0, ph, 0]]'),
+        'ortho_shaped_proj': (ins('pa', 'pb', 'pc', 'pd', 'pe', 'ph'), '%s(%s(1))' % (mat_t(4, 4, tag), T),
+                              '%s(pa, Z, Z, Z,  Z, pb, Z, Z,  Z, Z, pe, Z,  pc, pd, ph, %s(1))'.replace('Z', '%s(0)' % T) % (mat_t(4, 4, tag), T),
+                              'ident(4)', '[[pa, 0, 0, 0], [0, pb, 0, 0], [0, 0, pe, 0], [pc, pd, ph, 1]]'),
+        'frustum_shaped_proj_general_model': (MOD + ins('pa', 'pb', 'pc', 'pd', 'pe', 'pg', 'ph'), mat_make(4, 4, tag, 'm'),
+                                '%s(pa, Z, Z, Z,  Z, pb, Z, Z,  pc, pd, pe, pg,  Z, Z, ph, Z)'.replace('Z', '%s(0)' % T) % mat_t(4, 4, tag),
+                                'mat([%s], 4, 4)' % names(MOD), '[[pa, 0, 0, 0], [0, pb, 0, 0], [pc, pd, pe, pg], [0, 0, ph, 0]]'),
+    }
+    CHEAP = ('identity', 'diagonal', 'frustum_shaped_proj', 'ortho_shaped_proj')
+    for Z in ('NO', 'ZO'):
+        zn0 = ZN0[Z]
+        depth = '(c[2]/c[3] + 1)/2' if Z == 'NO' else 'c[2]/c[3]'
+        for gen, (gins, cmod, cprj, smod, sprj) in GEN.items():
+            CLIP = 'matvec(%s, matvec(%s, [o0, o1, o2, 1]))' % (sprj, smod)
+            L = lambda body: '(lambda c: %s)(%s)' % (body, CLIP)
+            fn = 'glm_project%s_%s_%s' % (Z, gen, tag)
+            d.shim(fn, 'void', OBJ + gins + VP, 'auto q = glm::project%s(%s, %s, %s, %s); %s' % (
+                Z, V3('o'), cmod, cprj, vec_make(4, tag, 'v'), vec_store(3, 'q')), outs=O3)
+            ens = [('window_x', L('out[0] == v0 + v2*(c[0]/c[3] + 1)/2')), ('window_y', L('out[1] == v1 + v3*(c[1]/c[3] + 1)/2')),
+                   ('depth', L('out[2] == ' + depth))]
+            for zi, (zname, zndc) in enumerate((('near', zn0), ('far', 1))):
+                for xi, xname in enumerate(('left', 'right')):
+                    for yi, yname in enumerate(('bottom', 'top')):
+                        ens.append(('clip_cube_%s_%s_%s_corner_to_viewport_corner' % (zname, xname, yname),
+                                    L('Implies(And(c[0] == %d*c[3], c[1] == %d*c[3], c[2] == %d*c[3]), '
+                                      'And(out[0] == v0 + %d*v2, out[1] == v1 + %d*v3, out[2] == %d))' % (2 * xi - 1, 2 * yi - 1, zndc, xi, yi, zi))))
+            R(fn, 'glm::project%s (%s model/proj)  %s' % (Z, gen, PJ), requires=[('clip_w_nonzero', L('c[3] != 0'))], ensures=ens,
+              timeout=120)
+
+            # gluUnProject: the object point whose projection is win, i.e. proj*model*(result,1) is proportional to the
+            # clip-space point q of win; domain: proj*model invertible, viewport not empty, the preimage is a finite point
+            # (Cramer: its homogeneous w is det(PM with column 3 replaced by q) / det(PM))
+            PM = 'matmul(%s, %s)' % (sprj, smod)
+            QZ = '2*w2 - 1' if Z == 'NO' else 'w2'
+            Q = '[2*(w0 - v0)/v2 - 1, 2*(w1 - v1)/v3 - 1, %s, 1]' % QZ
+            UREQ = [('viewport_width_nonzero', 'v2 != 0'), ('viewport_height_nonzero', 'v3 != 0'), ('proj_times_model_invertible', 'det(%s) != 0' % PM)]
+            fn = 'glm_unProject%s_%s_%s' % (Z, gen, tag)
+            d.shim(fn, 'void', WIN + gins + VP, 'auto q = glm::unProject%s(%s, %s, %s, %s); %s' % (
+                Z, V3('w'), cmod, cprj, vec_make(4, tag, 'v'), vec_store(3, 'q')), outs=O3)
+            R(fn, 'glm::unProject%s (%s model/proj)  %s' % (Z, gen, PJ),
+              requires=UREQ + [('preimage_is_a_finite_point', 'det(setcol(%s, 3, %s)) != 0' % (PM, Q))],
+              ensures=[('projects_back_to_win', 'And(proportional(matvec(%s, [out[0], out[1], out[2], 1]), %s))' % (PM, Q))],
+              tier='quick' if gen in CHEAP else 'thorough', timeout=300)
+            # unProject(project(obj)) == obj
+            fn = 'glm_unProject%s_of_project%s_%s_%s' % (Z, Z, gen, tag)
+            d.shim(fn, 'void', OBJ + gins + VP, 'auto q = glm::unProject%s(glm::project%s(%s, %s, %s, %s), %s, %s, %s); %s' % (
+                Z, Z, V3('o'), cmod, cprj, vec_make(4, tag, 'v'), cmod, cprj, vec_make(4, tag, 'v'), vec_store(3, 'q')), outs=O3)
+            R(fn, 'glm::unProject%s(glm::project%s(obj)) (%s model/proj)  %s' % (Z, Z, gen, PJ),
+              requires=UREQ + [('clip_w_nonzero', L('c[3] != 0'))],
+              ensures=[('roundtrip_is_identity', 'And(eqv(out, [o0, o1, o2]))')],
+              tier='quick' if gen in CHEAP else 'thorough', timeout=300)
+
+    # gluPickMatrix: the pick region center +- delta/2 (window coordinates) becomes the whole clip square: its corners, written in
+    # normalised device coordinates of `viewport`, go to x,y = -1/+1; z and w are untouched; no region (delta <= 0) -> identity
+    PIN = ins('cx', 'cy', 'dx', 'dy') + VP
+    fn = 'glm_pickMatrix_' + tag
+    d.shim(fn, 'void', PIN, 'auto m = glm::pickMatrix(glm::vec<2, %s, glm::defaultp>(cx, cy), glm::vec<2, %s, glm::defaultp>(dx, dy), %s); %s' % (
+        T, T, vec_make(4, tag, 'v'), ST), outs=O16)
+    pens = []
+    for xi, xname in enumerate(('left', 'right')):
+        for yi, yname in enumerate(('bottom', 'top')):
+            pt = '[2*(cx + (%d)*dx/2 - v0)/v2 - 1, 2*(cy + (%d)*dy/2 - v1)/v3 - 1, fresh("pz")]' % (2 * xi - 1, 2 * yi - 1)
+            pens.append(('region_%s_%s_corner_to_clip_square_corner' % (xname, yname),
+                         'Implies(And(dx > 0, dy > 0), (lambda c: And(c[3] == 1, c[0] == %d, c[1] == %d, c[2] == fresh("pz")))(hom(%s, %s)))' % (
+                             2 * xi - 1, 2 * yi - 1, M, pt)))
+    pens.append(('no_region_gives_identity', 'Implies(Not(And(dx > 0, dy > 0)), And(eqm(%s, ident(4))))' % M))
+    R(fn, 'glm::pickMatrix  ' + PJ, requires=[('viewport_width_positive', 'v2 > 0'), ('viewport_height_positive', 'v3 > 0')], ensures=pens)
+
     # ------------------------------------------------------------------ dispatch: one driver per configuration (the engine keys
     # contracts by shim name, so the configuration is part of the name); each shim stores the unsuffixed / half-suffixed
     # builder next to the variant that GLM_FORCE_LEFT_HANDED / GLM_FORCE_DEPTH_ZERO_TO_ONE must select, same arguments
     FAMILIES = (('ortho', ('l', 'r', 'b', 't', 'zn', 'zf')), ('frustum', ('l', 'r', 'b', 't', 'zn', 'zf')),
                 ('perspective', ('fovy', 'aspect', 'zn', 'zf')), ('perspectiveFov', ('fov', 'width', 'height', 'zn', 'zf')),
                 ('infinitePerspective', ('fovy', 'aspect', 'zn')))
+    FAMREQ = {'ortho': OREQ, 'frustum': FRREQ, 'perspective': PREQ, 'perspectiveFov': FREQ, 'infinitePerspective': IREQ}
     for cH, cZ in VARIANTS:
         cfg = cH + '_' + cZ
         dc = ddrivers[cfg]
@@ -191,7 +283,7 @@ for tag in ('f32', 'f64'):
                 dc.shim(fn, 'void', ins(*params), 'auto m = glm::%s%s(%s); %s auto q = glm::%s%s_%s(%s); %s' % (
                     fam, half, args, ST, fam, H, Z, args, mat_store(4, 4, 'q', 'sel')), outs=O16 + [(T, 'sel', 16)])
                 dcontracts.append((cfg, fn, 'glm::%s%s under GLM_CLIP_CONTROL_%s  %s' % (fam, half, cfg, CS),
-                                   dict(ensures=[('equals_selected_variant_%s%s_%s' % (fam, H, Z), 'And(eqv(out, sel))')])))
+                                   dict(requires=FAMREQ[fam], ensures=[('equals_selected_variant_%s%s_%s' % (fam, H, Z), 'And(eqv(out, sel))')])))
 
 flat = P.build(d, 'flat')
 for fn, real, kw in contracts:
